@@ -195,8 +195,6 @@ package dastard
 //@     invariant queue: group.queue.arr == old(group.queue.arr) && group.queue.off == old(group.queue.off) + group.ntake && len(group.queue) == old(len(group.queue)) - group.ntake && unchanged(group.ntake)
 
 // ---- block assembly ----
-//@ func roundint
-//@   trusted
 //@ func (*AbacoSource).extractExternalTriggers
 //@   trusted
 //@   ensures allocated(result)
